@@ -2,6 +2,7 @@
 pub mod checks;
 pub mod decode;
 pub mod driver;
+pub mod encode;
 pub mod evidence;
 pub mod gen;
 pub mod model;
